@@ -43,6 +43,14 @@ func isPositive(x Value) bool {
 	return false
 }
 
+func isNaN(x Value) bool {
+	if _, ok := x.iface.(float64); ok {
+		f := x.AsFloat()
+		return f != f
+	}
+	return false
+}
+
 func numIsLessThan(x, y Value) bool {
 	switch x.iface.(type) {
 	case int64:
